@@ -100,6 +100,46 @@ Denote(sel, rl, cl) ==
     [] OTHER -> Reject
 
 (***************************************************************************)
+(* Narrowing a rectangular selection: plate[sel][a, b] (Slicer.__getitem__)*)
+(* a and b index the SELECTION, not the plate, the way Python indexes a    *)
+(* list: 0-based, stop exclusive, positive step.  A node is                *)
+(*   [k |-> "at", i |-> 2]                          the element at index 2 *)
+(*   [k |-> "py", lo |-> L, hi |-> H, st |-> S]     [L:H:S]; -1 = absent   *)
+(* The result is again a rectangular selection: rows(sel)[a] x cols(sel)[b]*)
+(***************************************************************************)
+PyAt(i) == [k |-> "at", i |-> i]
+PySl(lo, hi, st) == [k |-> "py", lo |-> lo, hi |-> hi, st |-> st]
+PyAll == PySl(-1, -1, 0)
+
+PyIndex(seq, x) ==
+  IF x.k = "at" THEN (IF x.i < Len(seq) THEN <<seq[x.i + 1]>> ELSE <<>>)
+  ELSE LET lo == IF x.lo < 0 THEN 0 ELSE x.lo
+           hi == IF x.hi < 0 \/ x.hi > Len(seq) THEN Len(seq) ELSE x.hi
+           st == IF x.st = 0 THEN 1 ELSE x.st
+           pos == Range(lo, hi - 1, st)                         \* 0-based positions lo, lo+st, ... < hi
+       IN  [j \in DOMAIN pos |-> seq[pos[j] + 1]]
+
+\* rows and columns of a rectangular selection, as index sequences
+RectOf(sel, rl, cl) ==
+  CASE sel.k \in {"int", "label", "slice"} ->
+         LET r == Axis(sel, rl) IN IF r.ok THEN [ok |-> TRUE, rows |-> r.idx, cols |-> AllIdx(cl)] ELSE Reject
+    [] sel.k = "str" ->
+         LET w == ListItem(sel, rl, cl) IN
+         IF w[1] = 0 \/ w[2] = 0 THEN Reject ELSE [ok |-> TRUE, rows |-> <<w[1]>>, cols |-> <<w[2]>>]
+    [] sel.k = "pair" ->
+         LET r == Axis(sel.a, rl)
+             c == Axis(sel.b, cl)
+         IN  IF r.ok /\ c.ok THEN [ok |-> TRUE, rows |-> r.idx, cols |-> c.idx] ELSE Reject
+    [] OTHER -> Reject
+
+Narrow(sel, a, b, rl, cl) ==
+  LET R0 == RectOf(sel, rl, cl) IN
+  IF ~R0.ok THEN Reject
+  ELSE LET rs == PyIndex(R0.rows, a)
+           cs == PyIndex(R0.cols, b)
+       IN  [ok |-> TRUE, wells |-> Product(rs, cs), shape |-> <<Len(rs), Len(cs)>>]
+
+(***************************************************************************)
 (* Default labels: rows 'A'..'Z','AA','AB',... (bijective base 26),        *)
 (* columns '1','2',...; a well is named "well <row>,<col>".                *)
 (***************************************************************************)
